@@ -432,6 +432,7 @@ func Execute(t *testing.T, r *Run, body func(r *Run)) (leaked int, hung bool) {
 			r.Start = time.Now()
 			r.bubble = ownBubble()
 			smux.SimResetSessions()
+			simrt.ReadFault = nil
 			simrt.ReinitGlobals()
 			n := simrt.NewNetwork()
 			simrt.Cur = n
